@@ -109,3 +109,5 @@ def run(chk, tier, only_rule=None):
     chk.units = ['core']
     r19_1(chk, facts)
     r19_4(chk, tier)
+    from . import c15
+    c15.r15_6(chk, F.load(['patch'], tier))     # an allocation failure inside apply_patch leaves the state at begin: the destructor must roll back
